@@ -272,3 +272,10 @@ Proof.
   revert l; induction n as [|n IH]; intros [|h t]; cbn [short length]; auto.
   rewrite IH. reflexivity.
 Qed.
+
+Lemma skipn_add {A} (a b : nat) (l : list A) : skipn a (skipn b l) = skipn (b + a) l.
+Proof.
+  revert l; induction b as [|b IH]; intros l; [reflexivity|].
+  destruct l as [|h t]; [rewrite !skipn_nil; reflexivity|].
+  cbn [skipn Nat.add]. apply IH.
+Qed.
